@@ -317,6 +317,14 @@ func (e *Engine) assertC(id string, c Value) {
 			return
 		}
 		e.qs.Assert++
+		if e.res.ExampleQuery == "" && len(e.pc) > 0 {
+			var b strings.Builder
+			for _, t := range e.pc {
+				b.WriteString("(assert " + trunc(t.String(), 300) + ") ")
+			}
+			b.WriteString("(assert (not " + trunc(x.String(), 400) + ")) (check-sat) ; assertion " + id + " => expected unsat")
+			e.res.ExampleQuery = trunc(b.String(), 3000)
+		}
 		v, m := e.sol.Check(e.st.Not(x), e.jobVars)
 		e.count(v)
 		switch v {
